@@ -253,6 +253,8 @@ def obligations(tier):
     else:
         seconds = [dict(ending=e, ntraffic=0, second=s) for e in ("close0", "eof", "proto", "refused", "close-in-message", "pingtimeout", "rejected")
                    for s in ("close0", "eof", "close2") if s != "close2" or e in ("eof", "close0")]
+        # the second run needs its own working keepalive: a silent peer is noticed through the ping timeout
+        seconds += [dict(ending=e, ntraffic=0, second="pingtimeout") for e in ("close0", "eof", "pingtimeout", "refused", "proto", "close-in-message")]
     pre = [dict(ending=e, answer=a, ping=p, nyields=24 if thorough else 14) for e in ("none", "eof", "close") for a in (True, False) for p in (False, True)]
     return [
         Obligation("T-end", t_end, ends, bounds="every ending kind %s after 0..%d data frames, plain and TLS; close code symbolic over all wire-legal "
@@ -260,7 +262,7 @@ def obligations(tier):
                    must_cover=["end-" + e for e in ENDINGS], budget_s=1800, step_budget=60000,
                    kernel=["WebSocketApp.run_forever", "teardown", "read", "closed", "handleDisconnect", "_get_close_args", "WebSocketApp.close",
                            "_stop_ping_thread", "Dispatcher.read", "WebSocket.close"]),
-        Obligation("T-second", t_end, seconds, bounds="a second run_forever on the same object: 7 first endings x {close frame, end of stream, close with code} (thorough: every pair of 14 ending kinds)", must_cover=["second"],
+        Obligation("T-second", t_end, seconds, bounds="a second run_forever on the same object: 7 first endings x {close frame, end of stream, close with code} and 6 x {ping timeout against a silent peer} (thorough: every pair of 14 ending kinds)", must_cover=["second"],
                    budget_s=1800, step_budget=60000, kernel=["WebSocketApp.run_forever"]),
         Obligation("T-preempt", t_preempt, pre, bounds="close() from a second lock-step thread released at every one of the first 14 (thorough: 24) yield points "
                    "of the loop (symbolic index); server answering the close frame or silent; with and without a ping thread",
